@@ -54,6 +54,9 @@ def gen_numbers(rng, count):
         for _ in range(count):
             nums.append(cur)
             cur += rng.choice([1, 1, 2, 3, 10, 10, 50, 100, 1000])
+    if rng.random() < 0.15:
+        # a program whose first line is numbered 0 (a legal target; 0 after ON ERROR GOTO is NOT a reference)
+        nums = sorted(set([0] + nums[1:]))
     return nums
 
 
@@ -118,19 +121,31 @@ def gen_program(rng, nlines, mode, count=None):
     existing = set(nums)
     missing = []
 
-    def miss():
+    def miss(zero_ok):
         for _ in range(50):
-            c = rng.choice([rng.randint(0, 65529), rng.choice(nums) + 1, rng.choice(nums) - 1, 65529, 1, 7])
-            if 1 <= c <= 65529 and c not in existing:
+            c = rng.choice([rng.randint(0, 65529), rng.choice(nums) + 1, rng.choice(nums) - 1, 65529, 1, 7, 0, 0])
+            if (1 if not zero_ok else 0) <= c <= 65529 and c not in existing:
                 missing.append(c)
+                if c == 0:
+                    cnt('ref_missing_line_0')
                 return c
+        missing.append(65000)
         return 65000
 
-    def target(pool, allow_missing=True):
+    def target(pool, allow_missing=True, zero_ok=True):
+        """zero_ok=False where a 0 is not a line reference in GW-BASIC (RESUME 0 = retry, ERL=0 = no error) or not pinned (RETURN 0)."""
         if allow_missing and rng.random() < 0.06:
             cnt('ref_missing')
-            return R(miss())
-        return R(rng.choice(pool))
+            return R(miss(zero_ok))
+        if zero_ok and 0 in existing and rng.random() < 0.2:
+            cnt('ref_to_line_0')
+            return R(0)
+        if not zero_ok:
+            pool = [p for p in pool if p != 0] or [endline]
+        t = rng.choice(pool)
+        if t == 0:
+            cnt('ref_to_line_0')
+        return R(t)
 
     tagno = [0]
 
@@ -255,7 +270,7 @@ def gen_program(rng, nlines, mode, count=None):
             segs = [tag(b's')]
             if n == subs[-1] or rng.random() < 0.6:
                 if rng.random() < 0.15 and mains:
-                    segs += [b':RETURN ', target(mains)]
+                    segs += [b':RETURN ', target(mains, True, False)]
                     cnt('ref_return_n')
                 else:
                     segs += [b':RETURN']
@@ -267,16 +282,16 @@ def gen_program(rng, nlines, mode, count=None):
             last = (n == errs[-1])
             r = rng.random()
             if not last and r < 0.6:
-                segs += [b':IF ERL=', target(mains, False), b' THEN PRINT "L;"; ELSE PRINT "N;";']
+                segs += [b':IF ERL=', target(mains, False, False), b' THEN PRINT "L;"; ELSE PRINT "N;";']
                 cnt('ref_erl_eq')
             elif not last:
-                segs += [b':IF ERL=', target(mains, False), b' OR ERL=', target(mains, False), b' THEN RESUME ', target(mains)]
+                segs += [b':IF ERL=', target(mains, False, False), b' OR ERL=', target(mains, False, False), b' THEN RESUME ', target(mains, True, False)]
                 cnt('ref_erl_eq')
                 cnt('ref_resume')
             if last:
                 r = rng.random()
                 if r < 0.45:
-                    segs += [b':RESUME ', target(mains)]
+                    segs += [b':RESUME ', target(mains, True, False)]
                     cnt('ref_resume')
                 elif r < 0.85:
                     segs += [b':RESUME NEXT']
@@ -304,7 +319,7 @@ def gen_program(rng, nlines, mode, count=None):
                 segs = [b'ON ' + what + b' GOSUB ', target(subs or nums)]
                 cnt('ref_on_other')
             else:
-                segs = [b'RETURN ', target(nums), b':REM dead']
+                segs = [b'RETURN ', target(nums, True, False), b':REM dead']
                 cnt('ref_return_n')
         lines.append([n, segs])
     cont = None
